@@ -92,60 +92,47 @@ func Harness_C16_merge_pipeline() {
 }
 
 // More than two branches merged at once: k differ goroutines feed mergeTables through
-// reflect.Select, and they finish at different times. The branches make disjoint edits
-// of very different sizes (none, one row, most rows), assigned to the branch positions
-// by the permutation `order`, so that the differs close in every relative order while
-// another one is still sending; the merged table must be the base with every edit.
+// reflect.Select, and they finish at different times. Every differ reports each row of
+// its table (the merger asks for unchanged rows too), so a branch finishes later the
+// more rows it has: the branches ADD disjoint rows - none, one, many - and these sizes
+// are assigned to the branch positions by the permutation `order`, so that the differs
+// close in every relative order while another one is still sending. The merged table
+// must be the base plus every added row.
 func Harness_C16_merge_many_branches() {
 	db := zzrepo.NewLockedStore()
 	k := zzverif.Param("branches", 3)
-	n := zzverif.Param("rows", 10)
+	n := zzverif.Param("rows", 4)
+	many := zzverif.Param("many", 6)
 	order := zzverif.Param("order", 0)
-	// edit profile p: 0 = no edit, 1 = one row, 2 = every remaining row, 3.. = two rows
 	perm := [][]int{{0, 1, 2}, {0, 2, 1}, {1, 0, 2}, {1, 2, 0}, {2, 0, 1}, {2, 1, 0}}[order%6]
-	profile := make([]int, k)
+	extra := make([]int, k)
 	for j := 0; j < k; j++ {
-		if j < 3 {
-			profile[j] = perm[j]
-		} else {
-			profile[j] = 3
+		switch {
+		case j >= 3:
+			extra[j] = 2
+		case perm[j] == 1:
+			extra[j] = 1
+		case perm[j] == 2:
+			extra[j] = many
 		}
 	}
-	// owner[i] = branch that edits row i (-1 none)
-	owner := make([]int, n)
-	for i := range owner {
-		owner[i] = -1
-	}
-	next := 0
-	for j := 0; j < k; j++ {
-		switch profile[j] {
-		case 1:
-			owner[next] = j
-			next++
-		case 3:
-			owner[next], owner[next+1] = j, j
-			next += 2
-		}
-	}
-	for j := 0; j < k; j++ {
-		if profile[j] == 2 {
-			for i := next; i < n; i++ {
-				owner[i] = j
-			}
-		}
-	}
+	var want [][]string
 	mk := func(br int) ([]byte, *objects.Table) {
 		var rows [][]string
 		for i := 0; i < n; i++ {
-			r := []string{fmt.Sprintf("k%02d", i), fmt.Sprintf("b%d", i), fmt.Sprintf("c%d", i)}
-			if br >= 0 && owner[i] == br {
-				r[1+br%2] = fmt.Sprintf("E%d-%d", br, i)
+			rows = append(rows, []string{fmt.Sprintf("k%02d", i), fmt.Sprintf("b%d", i), fmt.Sprintf("c%d", i)})
+		}
+		if br >= 0 {
+			for x := 0; x < extra[br]; x++ {
+				rows = append(rows, []string{fmt.Sprintf("x%d-%02d", br, x), fmt.Sprintf("B%d", br), fmt.Sprintf("C%d", x)})
 			}
-			rows = append(rows, r)
 		}
 		return zzrepo.SaveTable(db, []string{"a", "b", "c"}, []uint32{0}, rows, 255)
 	}
 	baseSum, baseT := mk(-1)
+	for i := 0; i < n; i++ {
+		want = append(want, []string{fmt.Sprintf("k%02d", i), fmt.Sprintf("b%d", i), fmt.Sprintf("c%d", i)})
+	}
 	tables := []*objects.Table{baseT}
 	var others []*objects.Table
 	var sums [][]byte
@@ -154,6 +141,9 @@ func Harness_C16_merge_many_branches() {
 		others = append(others, t)
 		sums = append(sums, s)
 		tables = append(tables, t)
+		for x := 0; x < extra[j]; x++ {
+			want = append(want, []string{fmt.Sprintf("x%d-%02d", j, x), fmt.Sprintf("B%d", j), fmt.Sprintf("C%d", x)})
+		}
 	}
 	collector, cleanup, err := CreateRowCollector(db, baseT)
 	if err != nil {
@@ -188,21 +178,18 @@ func Harness_C16_merge_many_branches() {
 	ok := true
 	for blk := range rc {
 		for _, row := range blk.Rows {
-			if cnt >= n {
+			if cnt >= len(want) {
 				ok = false
 				break
 			}
-			want := []string{fmt.Sprintf("k%02d", cnt), fmt.Sprintf("b%d", cnt), fmt.Sprintf("c%d", cnt)}
-			if br := owner[cnt]; br >= 0 {
-				want[1+br%2] = fmt.Sprintf("E%d-%d", br, cnt)
-			}
-			if len(row) != 3 || row[0] != want[0] || row[1] != want[1] || row[2] != want[2] {
+			w := want[cnt]
+			if len(row) != 3 || row[0] != w[0] || row[1] != w[1] || row[2] != w[2] {
 				ok = false
 			}
 			cnt++
 		}
 	}
-	zzverif.Assert("merge-of-many-branches-equals-the-sequential-result", ok && cnt == n)
+	zzverif.Assert("merge-of-many-branches-equals-the-sequential-result", ok && cnt == len(want))
 	cleanup()
 	zzverif.Reach("end")
 }
